@@ -278,7 +278,55 @@ def rule_params_forwarded_(ctx: Ctx, rep: Report) -> None:
     rule_params_forwarded(ctx, rep, "C12.params_forwarded", ('btclib.script.taproot',), 10)
 
 
+def rule_loose_to_strict_(ctx: Ctx, rep: Report) -> None:
+    """C12.loose_to_strict: a loose-typed parameter reaches a strict-typed helper only converted (see sigcommon.rule_loose_to_strict)."""
+    from rules.sigcommon import rule_loose_to_strict
+    rule_loose_to_strict(ctx, rep, "C12.loose_to_strict", ('btclib.script.taproot',), 1)
+
+
+def rule_coercion_used_(ctx: Ctx, rep: Report) -> None:
+    """C12.coercion_used: a conversion of a parameter that is read again is kept (see sigcommon.rule_coercion_used)."""
+    from rules.sigcommon import rule_coercion_used
+    rule_coercion_used(ctx, rep, "C12.coercion_used", ('btclib.script.taproot',))
+
+
+def rule_leaf_as_committed(ctx: Ctx, rep: Report) -> None:
+    """C12.leaf_as_committed: the leaf a one-leaf tree hands out (and the control
+    byte is later built from) carries the leaf version the tapleaf hash commits
+    to -- the same expression, masked once. A leaf handed out as the caller wrote
+    it, beside a hash over the masked version, gives a control block whose first
+    byte is parity + an odd version: the library's own proof does not check."""
+    from sa.canon import expand
+    rule = "C12.leaf_as_committed"
+    fi = ctx.func(f"{T}._tree_helper")
+    hs = [c for c in own_nodes(fi.node) if isinstance(c, ast.Call) and call_name(c) == "leaf_hash" and c.args]
+    rets = [r for r in own_nodes(fi.node) if isinstance(r, ast.Return) and r.value is not None]
+    if len(hs) != 1 or len(rets) != 1:
+        rep.unknown(rule, "_tree_helper:shape", fi.where(), f"{len(hs)} leaf_hash calls, {len(rets)} returns")
+        return
+    committed = norm(hs[0].args[0])
+    b: dict[str, str] = {}
+    ok = False
+    detail = f"returns `{norm(rets[0].value)[:80]}`"
+    if PT.match(PT.compile_("([(($v, $$s), $$p)], $$h)"), rets[0].value, b):
+        handed = b.get("v", "")
+        ok = str(handed) == str(committed)
+        detail = f"hash over `{committed}`, leaf handed out with `{handed}`"
+        # masked: the committed version is masked somewhere (an `&= 0xFE` on it, or the expression itself)
+        masked = "& 254" in str(expand(fi, hs[0].args[0])).replace("0xFE", "254").replace("0xfe", "254") or any(
+            isinstance(a, ast.AugAssign) and isinstance(a.op, ast.BitAnd) and norm(a.target) == committed and ctx.fold(a.value, fi.module) == 0xFE for a in own_nodes(fi.node))
+        rep.ob(rule, "_tree_helper:masked", masked, fi.where(hs[0]), "the parity bit is masked out of the committed version" if masked else "the committed leaf version keeps its lowest bit, which is the control byte's parity bit")
+    else:
+        detail += ": the leaf is not rebuilt from the masked version"
+    rep.ob(rule, "_tree_helper:same_version", ok, fi.where(rets[0]), detail)
+    rep.floor(rule, 2)
+
+
 RULES = [
+    ("C12.leaf_as_committed", rule_leaf_as_committed),
+    ("C12.loose_to_strict", rule_loose_to_strict_),
+    ("C12.coercion_used", rule_coercion_used_),
+
     ("C12.params_forwarded", rule_params_forwarded_),
     ("C12.tweak", rule_tweak),
     ("C12.sibling_order", rule_sibling_order),
